@@ -183,7 +183,7 @@ func pickTok(r *rng.R, nsess int, adversarial int) string {
 
 var svcNames = []string{"findservers", "findserversonnetwork", "getendpoints", "registerserver", "registerserver2", "cancel", "addnodes",
 	"browsenext", "translate", "historyread", "call", "modifysub", "setpublishingmode", "republish", "transfersubs", "modifyitems",
-	"settriggering", "queryfirst", "closesecurechannel_as_msg"}
+	"settriggering", "queryfirst"}
 
 // standard reference types and nodes used by the browse generator
 var stdRefTypes = []uint32{0, 31, 32, 33, 34, 35, 36, 37, 38, 39, 40, 41, 44, 45, 46, 47, 48, 49, 51, 52, 53, 54, 117, 3065, 9004, 9005, 9006, 14476, 99999}
@@ -234,7 +234,7 @@ func generate(r *rng.R, mode string, hist int, s *sut) History {
 	nn := r.Range(3, 6)
 	for i := 0; i < nn; i++ {
 		nj := genNode(r, ns, hist, i)
-		if mode == "c33" || mode == "c29" {
+		if mode == "c33" {
 			nj.Refs = genRefs(r, h.Nodes, ns)
 		}
 		h.Nodes = append(h.Nodes, nj)
@@ -336,11 +336,7 @@ func generate(r *rng.R, mode string, hist int, s *sut) History {
 			case x < 82:
 				add(Op{Kind: "write", Ch: ch, Tok: tok, Writes: genWrites(r, h.Nodes, ns, hist)})
 			case x < 86:
-				if mode == "c29" {
-					add(Op{Kind: "browse", Ch: ch, Tok: tok, Browses: []BDesc{genBrowse(r, h.Nodes, ns, hist)}})
-				} else {
-					add(Op{Kind: "svc", Ch: ch, Tok: tok, Svc: "getendpoints"})
-				}
+				add(Op{Kind: "svc", Ch: ch, Tok: tok, Svc: "getendpoints"})
 			case x < 90:
 				add(Op{Kind: "svc", Ch: ch, Tok: tok, Svc: svcNames[r.Intn(len(svcNames))]})
 			case x < 93:
